@@ -16,6 +16,7 @@ Each discrepancy is attributed to the property whose statement it contradicts.
 """
 from __future__ import annotations
 
+import collections
 from collections import Counter
 from typing import Any, Dict, List, Optional, Sequence, Tuple
 
@@ -38,7 +39,9 @@ class Env:
         self.seq: Dict[Any, int] = {}
         self.check_seq = check_seq
         self.rounds = 0
-        self.received: Dict[Any, List[Tuple]] = {}
+        # (a defaultdict: a driver that asks what a slot received after the manager has died - when connections are no longer
+        # made - reads an empty list instead of tripping over a missing key; the death itself is among the problems)
+        self.received: Dict[Any, List[Tuple]] = collections.defaultdict(list)
         self.last_round: Dict[Any, List[Tuple]] = {}
         self.dead = False
 
